@@ -145,6 +145,38 @@ func c15Pool() (pool []object.Object, quickN int) {
 	return append(q, rest...), quickN
 }
 
+// c15ContainerPool: maps, sets and containers nested in containers chosen so that every pair-level
+// distinction of Map.Equals / Set.Equals / List.Equals is present: maps of the SAME size with
+// different key sets, keys bound to nil / false / 0 / "" / 0.0 (values a lookup of an absent key
+// could be confused with), the same entries under different keys, maps that differ in one nested
+// value, sets of the same size with different items, and all of these wrapped in lists and maps.
+func c15ContainerPool() []object.Object {
+	N, U := object.Nil, object.False
+	mA := func() object.Object { return c15Map("a", N) }
+	mB := func() object.Object { return c15Map("b", N) }
+	mAB := func() object.Object { return c15Map("a", N, "b", c15I(1)) }
+	mBC := func() object.Object { return c15Map("b", c15I(1), "c", c15I(2)) }
+	return []object.Object{
+		// maps: size 0/1
+		c15Map(), mA(), mB(), c15Map("a", U), c15Map("a", c15I(0)), c15Map("a", c15S("")), c15Map("a", c15F(0)), c15Map("a", c15I(1)),
+		c15Map("b", c15I(1)), c15Map("", N), c15Map("a", c15List()), c15Map("a", c15Map()), c15Map("a", c15Set()), c15Map("a", c15List(N)),
+		// maps: size 2/3, same size with different key sets, nil on either side
+		mAB(), mBC(), c15Map("b", c15I(1), "c", N), c15Map("a", c15I(1), "b", N), c15Map("a", N, "b", N), c15Map("b", N, "c", N),
+		c15Map("a", c15I(1), "b", c15I(1)), c15Map("a", c15I(1), "b", c15F(1)), c15Map("a", c15I(2), "b", c15I(1)),
+		c15Map("a", c15I(1), "b", c15I(2), "c", N), c15Map("a", c15I(1), "b", c15I(2), "d", N), c15Map("a", c15I(1), "b", c15I(2), "c", U),
+		// maps in maps
+		c15Map("a", c15Map("x", N)), c15Map("a", c15Map("y", N)), c15Map("a", c15Map("x", N, "y", c15I(1))), c15Map("a", c15Map("y", c15I(1), "z", c15I(2))),
+		c15Map("a", c15Set(N)), c15Map("a", c15Set(U)),
+		// containers in lists
+		c15List(N), c15List(c15List()), c15List(c15Map()), c15List(c15Set()), c15List(c15List(N)), c15List(c15Set(N)),
+		c15List(mA()), c15List(mB()), c15List(mAB()), c15List(mBC()), c15List(mA(), c15I(1)), c15List(mB(), c15I(1)), c15List(c15List(mA())), c15List(c15List(mB())),
+		// sets: falsy items, same size with different items, numerically equal items of different types
+		c15Set(), c15Set(N), c15Set(U), c15Set(c15I(0)), c15Set(c15S("")), c15Set(c15F(0)), c15Set(c15B(0)), c15Set(N, U), c15Set(c15I(0), c15S("")),
+		c15Set(N, c15I(0)), c15Set(U, c15S("")), c15Set(c15I(1), c15I(2)), c15Set(c15I(1), c15I(3)), c15Set(c15I(1), c15F(1)), c15Set(c15F(1), c15I(2)),
+		c15Set(c15I(1), c15B(1)), c15Set(c15I(1), c15I(2), N), c15Set(c15I(1), c15I(2), U),
+	}
+}
+
 // ---------------------------------------------------------------- evaluation on the real code
 
 type c15Pair struct {
@@ -327,6 +359,9 @@ func c15PairLaws(a, b object.Object, same bool, r c15Pair) []string {
 			bad = append(bad, "hash keys and == disagree within a type")
 		}
 	}
+	if want, ok := c15Structural(a, b); ok && r.eq != want {
+		bad = append(bad, fmt.Sprintf("== of two %ss is %v but comparing them entry by entry (same keys/items, == values) gives %v", ta, r.eq, want))
+	}
 	if c15IsContainerType(ta) {
 		if r.lz == "none" || r.tr != (r.lz == "0") {
 			bad = append(bad, "container truthiness is not (len != 0)")
@@ -336,6 +371,74 @@ func c15PairLaws(a, b object.Object, same bool, r c15Pair) []string {
 		}
 	}
 	return bad
+}
+
+// c15Structural recomputes == of two lists, two maps or two sets from the == of their parts
+// (the Spec of container equality, evaluated with the real Equals on the parts): lists have the
+// same length and == items at every index; maps have the same key SET and == values under every
+// key (a key bound to nil is not an absent key); sets have the same size and every item of each
+// has a same-type == item in the other.
+func c15Structural(a, b object.Object) (want bool, ok bool) {
+	if p := c15Guard(func() {
+		switch x := a.(type) {
+		case *object.List:
+			y, isList := b.(*object.List)
+			if !isList {
+				return
+			}
+			ok = true
+			xs, ys := x.Value(), y.Value()
+			want = len(xs) == len(ys)
+			for i := 0; want && i < len(xs); i++ {
+				want = object.Equals(xs[i], ys[i])
+			}
+		case *object.Map:
+			y, isMap := b.(*object.Map)
+			if !isMap {
+				return
+			}
+			ok = true
+			xm, ym := x.Value(), y.Value()
+			want = true
+			for k := range ym {
+				if _, found := xm[k]; !found {
+					want = false
+				}
+			}
+			for k, xv := range xm {
+				yv, found := ym[k]
+				if !found || !object.Equals(xv, yv) {
+					want = false
+				}
+			}
+		case *object.Set:
+			y, isSet := b.(*object.Set)
+			if !isSet {
+				return
+			}
+			ok = true
+			xs, ys := x.SortedItems(), y.SortedItems()
+			want = len(xs) == len(ys)
+			covered := func(ps, qs []object.Object) bool {
+				for _, p := range ps {
+					hit := false
+					for _, q := range qs {
+						if p.Type() == q.Type() && object.Equals(p, q) {
+							hit = true
+						}
+					}
+					if !hit {
+						return false
+					}
+				}
+				return true
+			}
+			want = want && covered(xs, ys) && covered(ys, xs)
+		}
+	}); p != "" {
+		return false, false
+	}
+	return want, ok
 }
 
 // c15IterContains: membership by iterating the container and comparing with Equals
@@ -433,6 +536,50 @@ type c15Matrix struct {
 	mism  [][]bool
 }
 
+// c15Shape classifies a same-kind container pair for the histogram: sizes and key/item sets.
+func c15Shape(a, b object.Object) string {
+	switch x := a.(type) {
+	case *object.Map:
+		xm, ym := x.Value(), b.(*object.Map).Value()
+		if len(xm) != len(ym) {
+			return "sizes differ"
+		}
+		same, nilOnly := true, false
+		for k, v := range xm {
+			if _, ok := ym[k]; !ok {
+				same = false
+				if v == object.Nil {
+					nilOnly = true
+				}
+			}
+		}
+		switch {
+		case same:
+			return "same size, same keys"
+		case nilOnly:
+			return "same size, keys differ, a one-sided key bound to nil"
+		}
+		return "same size, keys differ"
+	case *object.Set:
+		xs, ys := x.Value(), b.(*object.Set).Value()
+		if len(xs) != len(ys) {
+			return "sizes differ"
+		}
+		for k := range xs {
+			if _, ok := ys[k]; !ok {
+				return "same size, items differ"
+			}
+		}
+		return "same size, same items"
+	case *object.List:
+		if len(x.Value()) != len(b.(*object.List).Value()) {
+			return "sizes differ"
+		}
+		return "same size"
+	}
+	return "-"
+}
+
 func c15Key(kind string, encs ...string) string { return kind + " " + strings.Join(encs, " | ") }
 
 func c15RunMatrix(e *Env, vals []object.Object, scripts bool, label string) *c15Matrix {
@@ -467,6 +614,19 @@ func c15RunMatrix(e *Env, vals []object.Object, scripts bool, label string) *c15
 			if got := r.String(); got != c15ModelPart(rep) {
 				m.mism[i][j] = true
 				e.R.Mismatch(c, got, c15ModelPart(rep), "object.Equals/Compare/HashKey/IsTruthy/Contains vs the Lean Impl model")
+			}
+			// Equals as written (the range-and-lookup loops of Map.Equals / Set.Equals, model equalsW)
+			// and the well-formedness the theorems about it assume
+			if f["wf"] != "1" {
+				m.mism[i][j] = true
+				e.R.Mismatch(c, "encoding of the real values", "wf="+f["wf"], "the rendering of a real object is not well-formed for the model (map keys / set items not strictly sorted)")
+			}
+			if r.panicked == "" && (f["weq"] != c15b01(r.eq) || f["wqe"] != c15b01(r.qe)) {
+				m.mism[i][j] = true
+				e.R.Mismatch(c, "eq="+c15b01(r.eq)+" qe="+c15b01(r.qe), "eq="+f["weq"]+" qe="+f["wqe"], "object.Equals vs the Lean model of Equals as written (List/Map/Set.Equals loops, equalsW)")
+			}
+			if a.Type() == b.Type() && (a.Type() == object.MAP || a.Type() == object.SET || a.Type() == object.LIST) {
+				e.R.H("container_eq", fmt.Sprintf("[%spairs] %s×%s %s eq=%s", label, a.Type(), b.Type(), c15Shape(a, b), c15b01(r.eq)))
 			}
 			if m.lossy[i][j] {
 				e.R.H("guard", "pair inside "+c15Finding)
@@ -682,13 +842,202 @@ func (g *c15Gen) mutate(v object.Object) object.Object {
 		return object.NewList(items)
 	case *object.Map:
 		m := map[string]object.Object{}
-		for k, it := range x.Value() {
+		src := x.Value()
+		for _, k := range c15SortedMapKeys(src) { // sorted: the random choices must not depend on Go's map iteration order
+			it := src[k]
 			m[k] = it
 			if r.Chance(50) {
 				m[k] = g.mutate(it)
 			}
 		}
 		return object.NewMap(m)
+	}
+	return v
+}
+
+// ---- related containers: maps / sets / lists that differ from one another in ONE respect
+
+var c15KeyUniverse = []string{"a", "b", "c", "", "é", "ab"}
+
+// falsy: the values an absent entry could be confused with (nil above all), and empty containers.
+func (g *c15Gen) falsy() object.Object {
+	switch g.rng.Intn(12) {
+	case 0, 1, 2, 3:
+		return object.Nil
+	case 4:
+		return object.False
+	case 5:
+		return c15I(0)
+	case 6:
+		return c15S("")
+	case 7:
+		return c15F(0)
+	case 8:
+		return c15B(0)
+	case 9:
+		return c15List()
+	case 10:
+		return c15Map()
+	default:
+		return c15Set()
+	}
+}
+
+func (g *c15Gen) smallHashable() object.Object {
+	r := g.rng
+	switch r.Intn(8) {
+	case 0:
+		return object.Nil
+	case 1:
+		return object.NewBool(r.Bool())
+	case 2, 3:
+		return c15I(int64(r.Intn(3)))
+	case 4:
+		return c15F(float64(r.Intn(3)))
+	case 5:
+		return c15B(byte(r.Intn(3)))
+	case 6:
+		return c15S(Pick(r, []string{"", "a", "b"}))
+	default:
+		return g.hashable()
+	}
+}
+
+func (g *c15Gen) entryValue(depth int) object.Object {
+	r := g.rng
+	switch {
+	case r.Chance(40):
+		return g.falsy()
+	case depth > 0 && r.Chance(40):
+		return g.container(depth - 1)
+	case r.Chance(15):
+		return g.scalar()
+	default:
+		return g.smallHashable()
+	}
+}
+
+// container: a small list, map or set whose entries are falsy-heavy and may be containers.
+func (g *c15Gen) container(depth int) object.Object {
+	r := g.rng
+	n := r.Intn(4)
+	switch r.Intn(5) {
+	case 0:
+		items := make([]object.Object, n)
+		for i := range items {
+			items[i] = g.entryValue(depth)
+		}
+		return object.NewList(items)
+	case 1, 2, 3:
+		m := map[string]object.Object{}
+		for i := 0; i < n; i++ {
+			m[Pick(r, c15KeyUniverse)] = g.entryValue(depth)
+		}
+		return object.NewMap(m)
+	default:
+		items := make([]object.Object, n)
+		for i := range items {
+			items[i] = g.smallHashable()
+		}
+		return object.NewSet(items)
+	}
+}
+
+func c15SortedMapKeys(m map[string]object.Object) []string {
+	keys := make([]string, 0, len(m))
+	for k := range m {
+		keys = append(keys, k)
+	}
+	sort.Strings(keys)
+	return keys
+}
+
+// relative returns a container that differs from v in one respect (or not at all): a key renamed
+// (same size, different key set), a value replaced by nil, an entry dropped or added, one nested
+// value changed the same way, or the whole value wrapped in a list / map.
+func (g *c15Gen) relative(v object.Object, depth int) object.Object {
+	r := g.rng
+	if depth > 0 && r.Chance(8) {
+		if r.Bool() {
+			return c15List(v)
+		}
+		return c15Map(Pick(r, c15KeyUniverse), v)
+	}
+	switch x := v.(type) {
+	case *object.Map:
+		m := map[string]object.Object{}
+		for k, it := range x.Value() {
+			m[k] = it
+		}
+		keys := c15SortedMapKeys(m) // sorted: the choice must not depend on Go's map iteration order
+		var absent []string
+		for _, k := range c15KeyUniverse {
+			if _, ok := m[k]; !ok {
+				absent = append(absent, k)
+			}
+		}
+		op := r.Intn(9)
+		switch {
+		case op == 0 && len(keys) > 0 && len(absent) > 0: // rename a key: same size, different key set
+			k := Pick(r, keys)
+			m[Pick(r, absent)] = m[k]
+			delete(m, k)
+		case op == 1 && len(keys) > 0 && len(absent) > 0: // replace an entry by another key bound to nil
+			delete(m, Pick(r, keys))
+			m[Pick(r, absent)] = object.Nil
+		case op == 2 && len(keys) > 0: // bind a key to nil / a falsy value
+			m[Pick(r, keys)] = g.falsy()
+		case op == 3 && len(keys) > 0:
+			m[Pick(r, keys)] = object.Nil
+		case op == 4 && len(keys) > 0:
+			delete(m, Pick(r, keys))
+		case op == 5 && len(absent) > 0:
+			m[Pick(r, absent)] = g.falsy()
+		case op == 6 && len(keys) > 0:
+			k := Pick(r, keys)
+			m[k] = g.relative(m[k], depth-1)
+		case op == 7 && len(keys) > 0:
+			k := Pick(r, keys)
+			m[k] = g.mutate(m[k])
+		}
+		return object.NewMap(m)
+	case *object.Set:
+		items := append([]object.Object{}, x.SortedItems()...)
+		op := r.Intn(6)
+		switch {
+		case op == 0 && len(items) > 0: // same size (usually), another item
+			items[r.Intn(len(items))] = g.smallHashable()
+		case op == 1 && len(items) > 0: // the numerically equal value of another type
+			i := r.Intn(len(items))
+			items[i] = g.mutate(items[i])
+		case op == 2 && len(items) > 0:
+			i := r.Intn(len(items))
+			items = append(items[:i], items[i+1:]...)
+		case op == 3:
+			items = append(items, g.smallHashable())
+		}
+		return object.NewSet(items)
+	case *object.List:
+		items := append([]object.Object{}, x.Value()...)
+		op := r.Intn(6)
+		switch {
+		case op == 0 && len(items) > 0:
+			i := r.Intn(len(items))
+			items[i] = g.relative(items[i], depth-1)
+		case op == 1 && len(items) > 0:
+			items[r.Intn(len(items))] = g.falsy()
+		case op == 2:
+			items = append(items, object.Nil)
+		case op == 3 && len(items) > 0:
+			items = items[:len(items)-1]
+		case op == 4 && len(items) > 0:
+			i := r.Intn(len(items))
+			items[i] = g.mutate(items[i])
+		}
+		return object.NewList(items)
+	}
+	if r.Chance(50) {
+		return g.mutate(v)
 	}
 	return v
 }
@@ -982,7 +1331,7 @@ func c15SameButZeroSign(a, b string) bool {
 
 func c15_runC15(e *Env) {
 	e.R.Rule = "pairs and triples: every ordered pair/triple of a boundary pool (ints at 0, ±1, 2^53±k, int64 extremes; floats adjacent to those, ±0, ±Inf, subnormals; bytes; strings with multi-byte runes and invalid UTF-8; bool; nil; errors; nested lists; maps; sets) " +
-		"plus seeded random values (nested to depth 3) paired with a mutated copy; sort/set inputs: random lists over the same generators (sort: ≤ 20 items when the guard or a type error is possible, up to 64 otherwise). " +
+		"plus seeded random values (nested to depth 3) paired with a mutated copy; plus a container pool (maps of equal size with different key sets, keys bound to nil/false/0/\"\"/0.0, sets of equal size with different items, all of them nested in lists and maps) and seeded families of related containers (a base map/set/list and copies with one key renamed, one value set to nil, one entry dropped/added, one nested value changed, or wrapped), every ordered pair and same-type triple of each family, == also recomputed entry by entry; sort/set inputs: random lists over the same generators (sort: ≤ 20 items when the guard or a type error is possible, up to 64 otherwise). " +
 		"A case is distinct by the canonical rendering of its values (floats as IEEE bits); non-trivial when the values are not all identical, lists when length ≥ 2"
 	pool, quickN := c15Pool()
 	g := &c15Gen{rng: e.Rng.Fork(), pool: pool}
@@ -1014,6 +1363,25 @@ func c15_runC15(e *Env) {
 		}
 		fm := c15RunMatrix(e, fam, f%10 == 0, "rnd-")
 		c15Triples(e, fm, "rnd-")
+	}
+
+	// 2b. containers: the exhaustive container pool (maps / sets / nested containers: same size with
+	// different key sets, nil and other falsy values) and families of related containers
+	cp := c15ContainerPool()
+	e.R.Note("container pool of %d maps, sets and nested containers: every ordered pair through the object API and through scripts, every ordered same-type triple", len(cp))
+	cm := c15RunMatrix(e, cp, true, "cont-")
+	c15Triples(e, cm, "cont-")
+	nCFam, cFamSize := 600, 5
+	if !e.Quick {
+		nCFam, cFamSize = 12000, 6
+	}
+	for f := 0; f < nCFam; f++ {
+		fam := []object.Object{g.container(2)}
+		for len(fam) < cFamSize {
+			fam = append(fam, g.relative(Pick(g.rng, fam), 2))
+		}
+		fm := c15RunMatrix(e, fam, f%10 == 0, "crel-")
+		c15Triples(e, fm, "crel-")
 	}
 
 	// 3. sorted(): random lists
